@@ -653,7 +653,8 @@ pub fn modify_field_alts(cfg: &Cfg) -> Vec<Vec<(u8, Modify)>> {
         ext.push(other.clone());
         let mut rev = cur.clone();
         rev.reverse();
-        vec![cur.clone(), ext, vec![cur[0].clone()], rev, vec![], vec![other], vec!["X".into()], vec![cur[0].clone(), "BAD".into()]]
+        // the last one drops a current member while repeating a kept one (same length as before)
+        vec![cur.clone(), ext, vec![cur[0].clone()], rev, vec![], vec![other.clone()], vec!["X".into()], vec![cur[0].clone(), "BAD".into()], vec![cur[0].clone(), other, cur[0].clone()], vec![cur[0].clone(), cur[0].clone()]]
     };
     let mut groups: Vec<Vec<(u8, Modify)>> = vec![];
     groups.push(
